@@ -549,9 +549,38 @@ fn proc_obs(c: &MCTPSMBusContext, p: &[u8], buf0: &[u8]) -> String {
 impl Exec {
     fn handle(&mut self, line: &str) -> String {
         let toks: Vec<&str> = line.split_whitespace().collect();
-        match self.dispatch(&toks) {
-            Some(s) => s,
-            None => "bad-op".to_string(),
+        // `repeat <count> <op …>`: the same operation again and again on the same state; every answer
+        // must equal the first (executor-only: anything that depends on the number of calls so far)
+        if toks.len() >= 3 && toks[0] == "repeat" {
+            let count: u64 = match toks[1].parse() {
+                Ok(c) => c,
+                Err(_) => return "bad-op".to_string(),
+            };
+            let inner = toks[2..].to_vec();
+            let first = self.guarded(&inner);
+            let mut mism = 0u64;
+            let mut at = String::from("-");
+            for k in 1..count {
+                let cur = self.guarded(&inner);
+                if cur != first {
+                    mism += 1;
+                    if at == "-" {
+                        at = format!("{}:{}", k, cur.replace(' ', "_").chars().take(80).collect::<String>());
+                    }
+                }
+            }
+            return format!("repeated {} {} {} | {}", count, mism, at, first);
+        }
+        self.guarded(&toks)
+    }
+
+    /// one operation, with a safety net: a panic that escapes an arm which does not expect one is still
+    /// reported as an observation instead of killing the executor
+    fn guarded(&mut self, toks: &[&str]) -> String {
+        match catch_unwind(AssertUnwindSafe(|| self.dispatch(toks))) {
+            Ok(Some(s)) => s,
+            Ok(None) => "bad-op".to_string(),
+            Err(_) => panic_text(),
         }
     }
 
